@@ -14,7 +14,9 @@ EXPLANATION = (
     "ring-buffer claim table (slot empty and high-low < size, slot written behind the won CAS) and its single receiver "
     "consumes exactly when the slot is non-NULL and high > low, clearing the slot before it advances low (release); the "
     "multi channel tests capacity / non-emptiness under its mutex again after every wait, indexes by counter & mask, "
-    "advances the counter once, and wakes one waiter before unlocking.  Exactly-once / order / no stranded peer over "
+    "advances the counter once, and wakes one waiter before unlocking; blocked senders and blocked receivers park on different lists and each "
+    "completed operation wakes the other kind (a shared list lets a send wake a sender and the wake-up is lost); counters narrower than 64 "
+    "bits are also checked across their wrap.  Exactly-once / order / no stranded peer over "
     "interleavings are not decided.")
 NOT_DECIDED = ["exactly-once, per-sender order and 'no stranded peer' over all interleavings"]
 ASSUMPTIONS = ["one receiver per bounded / unbounded channel (documented contract)", "64-bit message counters do not wrap (2^64 messages); counters narrower than 64 bits are checked across their wrap"]
